@@ -122,11 +122,14 @@ class Requestant(httping.Parsent):
             self.version = (1, 1)  # use HTTP/1.1 code for HTTP/1.x where x>=1
 
 
-        pathSplits = urlsplit(self.url)
+        try:
+            pathSplits = urlsplit(self.url)
+            self.port = pathSplits.port  # raises ValueError when not a valid port
+        except ValueError as ex:  # bad IPv6 literal or port in absolute url
+            raise httping.InvalidURL("Invalid request url '{0}'. {1}".format(self.url, ex))
         self.path = unquote(pathSplits.path)  # unquote non query path portion here
         self.scheme = pathSplits.scheme
         self.hostname = pathSplits.hostname
-        self.port = pathSplits.port
         self.query = pathSplits.query  # WSGI spec leaves it quoted do not unquote
         self.fragment = pathSplits.fragment
 
